@@ -14,6 +14,12 @@ def impl_model_checks(ctx):
             raise vlib.Inconclusive("DownstreamImpl does not reject defect " + d)
     if vlib.run_tlc(ctx, "lifecycle", "DownstreamImpl", "DownstreamImpl_loop.cfg", expect_ok=False)["ok"]:
         raise vlib.Inconclusive("DownstreamImpl does not show the task-loop fall-out for a small loop bound")
+    # the end of one stream object (BaseStream: reset path vs response path): OnDestroyStream exactly once; the guided
+    # schedule ResetVsResponse of Scenarios.tla is the counterexample of the CheckThenAct defect
+    ctx.add_tlc(vlib.run_tlc(ctx, "stream", "BaseStream", "BaseStream.cfg", timeout=900))
+    for d in ("CheckThenAct", "NoClaim"):
+        if vlib.run_tlc(ctx, "stream", "BaseStream", "BaseStream_defect_%s.cfg" % d, expect_ok=False)["ok"]:
+            raise vlib.Inconclusive("BaseStream does not reject defect " + d)
 
 
 def model_checks(ctx):
